@@ -177,11 +177,9 @@ def translate():
         raise ShapeError("segment options start / pc: construction of the program counters has unrecognised shape")
     ca = re.search(r"pub fn check_address\(&self, key: &str, address: i64\) -> CoreResult<i64> \{ if \(0\.\.=(0x[0-9a-fA-F]+|\d+)\)\.contains\(&address\) \{ Ok\(address\) \} else \{", ce)
     seg_checked = start_checked and tgt_checked and bool(ca)
-    limits = set(int(x.group(1), 0) for x in (mr, ca) if x)
-    if len(limits) > 1:
-        raise ShapeError("`* =` and segment options use different program counter limits")
     out["pc_values_checked"] = B(pc_checked and seg_checked)
-    out["pc_limit"] = "%d" % (limits.pop() if limits else 0)
+    out["pc_limit"] = "%d" % (int(mr.group(1), 0) if mr else 0)                 # `* =`: an address or the end of the address space
+    out["segment_address_limit"] = "%d" % (int(ca.group(1), 0) if ca else 0)     # start / pc options: an address
     out["relocated_pc_checked"] = B(reloc)
     bra = norm(between(cg, r"Token::Instruction\(i\) => \{", r"Token::Label \{", "instruction arm"))
     if "let mut offset = target_pc.wrapping_sub(cur_pc);" in bra:
@@ -233,10 +231,25 @@ def translate():
         out["function_callbacks_locked"] = B(False)
     else:
         raise ShapeError("FunctionMap has unrecognised shape")
+    # ---------------- a symbol without a span that clashes with a definition of the program (segments.<name>.start / .end)
+    if 'let span = symbol.span.expect("no span provided");' in ncg:
+        clash = False
+    elif "if let Some(span) = symbol.span.or(existing.span) { diag = diag.with_labels(vec![span.to_label()]); } return Err(diag.into());" in ncg:
+        clash = True
+    else:
+        raise ShapeError("add_symbol: the redefinition error has unrecognised shape")
+    if 'ctx.after_pass().expect("Could not finalize pass");' in ncg:
+        after = False
+    elif "if let Err(e) = ctx.after_pass() { errors.extend(e); }" in ncg:
+        after = True
+    else:
+        raise ShapeError("codegen(): the call of after_pass has unrecognised shape")
+    keeps = bool(re.search(r"self\.segments = segments; if errors\.is_empty\(\) \{ Ok\(\(\)\) \} else \{ Err\(errors\) \}", ncg))
+    out["spanless_clash_reported"] = B(clash and after and keeps)
     lines = ["(* GENERATED by translate/t_c06sites.py from mos-core/src/{codegen/mod.rs,codegen/segment.rs,codegen/program_counter.rs,"
              "codegen/config_extractor.rs,parser/identifier.rs}. DO NOT EDIT. *)",
              "From Coq Require Import ZArith.", "Open Scope Z_scope."]
-    types = {"align_cap": "option Z", "loop_count_limit": "option Z", "macro_depth_limit": "option nat", "pc_limit": "Z", "nesting_depth_limit": "option nat", "bank_size_limit": "option Z", "container_budget": "option Z",
+    types = {"align_cap": "option Z", "loop_count_limit": "option Z", "macro_depth_limit": "option nat", "pc_limit": "Z", "segment_address_limit": "Z", "nesting_depth_limit": "option nat", "bank_size_limit": "option Z", "container_budget": "option Z",
              "parser_nesting_limit": "option nat"}
     for k in sorted(out):
         lines.append("Definition %s : %s := %s." % (k, types.get(k, "bool"), out[k]))
